@@ -138,6 +138,46 @@ def peak (a b : Img) : Option Peak :=
       | o :: os => some (os.foldl (fun m v => if m < v then v else m) o)
     some { lag := best.1, value := best.2, runnerUp := ru }
 
+/-! ## when does the maximum sit at the true translation
+
+`b` is *the window of `a` at `t`* when `b[n] = a[n + t]` for every pixel of `b`, `a` being read as
+zero outside its box (so a `b` that sticks out of `a` must vanish there: a sub-window of `a`, or an
+overlapping window of a scene that is zero outside the overlap).  The cross-correlation at lag `l` is
+then the dot product of the windows of `a` at `l` and at `t`; by `2xy ≤ x² + y²` it is below the
+correlation at `t` as soon as the window at `l` has no more energy than the window at `t` and
+differs from it somewhere.  `truthHyp` is that condition, decidable and evaluated by the driver per
+case; `PewTheorems.C12.register_truth` proves `register a b = t` from it. -/
+
+/-- `a`, zero-extended, read at `n + l` -/
+def shiftRead (a : Img) (l : List Int) : List Nat → Rat :=
+  fun n => zext a.shape a.get (List.zipWith (· + ·) (n.map Int.ofNat) l)
+
+/-- `Σ_{n ∈ box} F[n] · G[n]` (nested over the axes like `lin`) -/
+def dot : List Nat → (List Nat → Rat) → (List Nat → Rat) → Rat
+  | [], F, G => F [] * G []
+  | s :: ss, F, G => sumRange s fun n => dot ss (fun r => F (n :: r)) (fun r => G (n :: r))
+
+/-- energy of the window of (zero-extended) `a` of shape `sb` at lag `l` -/
+def winEnergy (a : Img) (sb : List Nat) (l : List Int) : Rat := dot sb (shiftRead a l) (shiftRead a l)
+
+/-- `b` is the window of zero-extended `a` at `t` -/
+def isWindowOf (a b : Img) (t : List Int) : Bool :=
+  (allIdx b.shape).all fun n => b.get n == shiftRead a t n
+
+/-- the window of `a` at `l` differs from the window at `t` -/
+def winDiffers (a : Img) (sb : List Nat) (l t : List Int) : Bool :=
+  (allIdx sb).any fun n => shiftRead a l n != shiftRead a t n
+
+/-- **the scene hypothesis under which the estimate is the true translation `t`**: `t` is a lag of
+the lag box, `b` is the window of `a` at `t`, and among all windows of `a` of `b`'s shape (one per
+lag of the lag box, `a` zero-extended) the one at `t` has the largest energy and is not repeated
+among those of the same energy -/
+def truthHyp (a b : Img) (t : List Int) : Bool :=
+  let wt := winEnergy a b.shape t
+  inLagBox a.shape b.shape t && isWindowOf a b t &&
+    (lags a.shape b.shape).all fun l =>
+      l == t || (decide (winEnergy a b.shape l ≤ wt) && winDiffers a b.shape l t)
+
 /-! ## the decode that the code used before commit dfabb17 (regression documentation) -/
 
 /-- `fftshift` moves index `k` to `(k + s/2) mod s`; the old code returned that position minus `s/2` -/
@@ -188,5 +228,15 @@ open Pew.Overlap in
 pixel, the fill elsewhere -/
 def sceneOnUnion (scene : Idx → Rat) (fill : V) (arrs : List Arr) (p : Idx) : V :=
   if arrs.any (fun a => a.inside p) then some (scene p) else fill
+
+open Pew.Overlap in
+/-- **specification of register-then-merge over the whole result** (what the driver sends as `spec`
+of `c12.merge`): the bounding box of the windows and, for every canvas pixel `p` in row-major order,
+the scene at `p + min offset` (canvas → scene coordinates) where a window covers it, else the fill -/
+def mergeSpec (scene : Idx → Rat) (fill : V) (ndim : Nat) (arrs : List Arr) : List Int × List V :=
+  let mo := minOffset ndim arrs
+  let sh := newShape ndim (normalise ndim arrs)
+  (sh, (Pew.Overlap.allIdx (sh.map Int.toNat)).map
+        (fun p => sceneOnUnion scene fill arrs (List.zipWith (· + ·) p mo)))
 
 end Pew.Register
